@@ -94,11 +94,11 @@ Definition openForReading (e : ent) : ent * bool :=
   if negb ok then (e, false)
   else if negb (used e) || wtbf e then (e, false)
   else (set_lk e l, true).
-(* openForWriting() = openForWritingAt(idx, overwriteExisting=false), followed by the caller's setKey()/set() *)
+(* openForWriting() = openForWritingAt(idx) with its default overwriteExisting=true (StoreMap.h): an unlocked
+   entry found there is freed (freeChain(keepLocked)); followed by the caller's setKey()/set() *)
 Definition openForWriting (e : ent) : ent * bool :=
   let '(l, ok) := lockExclusive (lk e) in
   if negb ok then (e, false)
-  else if negb (wtbf e) && used e then (e, false)
   else (mkE l true false false 0 0, true).
 Definition startAppending (e : ent) : ent := set_lk e (lockStartAppending (lk e)).
 Definition closeForWriting (e : ent) : ent := set_lk e (unlockExclusive (lk e)).
